@@ -47,10 +47,14 @@ claim("C10", "other",
       "Decides conformance of every copy of the error-free transformations (fpa, algorithms, utils; all fast/scale/fix_overflow/default-C option combinations) to catalogued proven algorithms by symbolic dataflow extraction and comparison of normal forms under exact algebra; splitter constants 2^ceil(p/2)+1 at all sites; option plumbing of apmath wrappers. Exactness is the cited theorem, not re-proved; domains not decided.",
       "trusted: catalogue sa/oracles/eft_reference.py with citations; exactness of normalising identities in RN arithmetic; power-of-two splitter variant accepted without citation",
       "symbolic dataflow extraction of straight-line kernels + normal-form equality against a catalogue", "DESIGN.md §3/C10")
+claim("C04", "other",
+      "Decides soundness of the rewriter's local rules: every reachable row of the three comparison-folding tables on the float lattice; relop column wiring; every rewrite extracted by abstract interpretation of the Rewriter/Expr.rewrite source on a finite family of expression shapes, decided on a finite exact model (incl. zero, booleans, complex, nested rounding grids for casts); Expr._is_* answers over operand value classes x knowledge masks. Branch coverage of the Rewriter by the family is measured and reported. Not decided: termination/exceptions for arbitrary DAGs, folding in numpy dtypes, shapes outside the family.",
+      "trusted: sa/absint.py interpreter, sa/exprsem.py semantics, lattice oracle; 2 known findings (upcast(downcast), divide by infinite constant)",
+      "abstract interpretation of the rule source + finite-model checking of extracted rewrites; literal-table audit", "DESIGN.md §3/C04")
 for p, why in dict(
     C01="bounds ULP error of libm-based formulas over all complex inputs: a numeric quantity no static argument in reach can bound",
     C02="same on the real line; float32 exhaustion is execution, not static analysis",
-    C03="(not built yet)", C04="(not built yet)", C08="(not built yet)", C12="(not built yet)",
+    C03="(not built yet)", C08="(not built yet)", C12="(not built yet)",
     C14="metric laws of integer arithmetic on runtime bit patterns; nothing structural beyond a width table",
 ).items():
     na(p, why)
